@@ -23,7 +23,7 @@ EXPLANATION = (
 )
 MANIFEST_ENTRY = {
     "category": "other",
-    "text": "Bounded symbolic checking through the real runtime: for each program and every truth table of the preconditions and every outcome of every RNG call within the horizon, the RNG requests (enabled population, order, weights, ranges, moment) and the behaviours that run equal those of a reference interpreter of the documented semantics.",
+    "text": "Bounded symbolic checking through the real runtime: for each program (fixed corpus plus seeded generated choose/shuffle programs over behaviours and over sub-scenarios in compose blocks) and every truth table of the preconditions and every outcome of every RNG call within the horizon, the RNG requests (enabled population, order, weights, ranges, moment) and the behaviours that run equal those of a reference interpreter of the documented semantics.",
     "note": "Trusted: CrossHair, z3, the reference interpreter, random.choices / randint as documented. Bounds: <= 3 items, horizon <= 4 steps.",
 }
 ASSUMPTIONS = ["random.choices(pop, cum_weights=cw) picks index i with probability proportional to the i-th weight"]
